@@ -396,22 +396,40 @@ def gen_site_source(rng, ctx, edge):
             if edge == "ecc_big" and not eccs:
                 up = rng.choice([-123.4567, 1234.5678, -1000.0])
             eccs.append(dict(start_time=a, end_time=b, vector_type="UNE", vector_1=up, vector_2=gen_small(rng), vector_3=gen_small(rng)))
-        xyz = [gen_coord(rng) for _ in range(3)]
+        # 1..4 coordinate solutions with consecutive validity periods, LISTED IN SHUFFLED ORDER in the source: the writers
+        # have to take the chronologically latest one (site_coord.get("last") = greatest (start, end) key, cf. C18)
+        n_sol = rng.choice([1, 1, 2, 3, 4])
+        sol_starts = [start]
+        for _ in range(n_sol - 1):
+            sol_starts.append(sol_starts[-1] + timedelta(days=rng.randrange(30, 1500)))
+        sols = []
+        for j_ in range(n_sol):
+            xyz_j = [gen_coord(rng) for _ in range(3)]
+            vel_j = [gen_small(rng, 0.09999) for _ in range(3)]
+            if j_ and rng.random() < 0.6:          # realistic: a few cm away from the previous solution
+                xyz_j = [round(a_ + d_ if abs(a_ + d_) <= 9999999.9999 else a_ - d_, 5)
+                         for a_, d_ in ((a_, rng.uniform(-0.05, 0.05)) for a_ in sols[-1][3])]
+            sols.append((str(j_ + 1), sol_starts[j_], sol_starts[j_ + 1] if j_ + 1 < n_sol else None, xyz_j, vel_j))
+        xyz, vel = sols[-1][3], sols[-1][4]
         if rng.random() < 0.12:
             xyz[0] = float("nan")
         if edge == "coord_big" and st == names[0]:
             xyz[1] = rng.choice([-123456789.12345, 99999999.99999])
-        vel = [gen_small(rng, 0.09999) for _ in range(3)]
         if rng.random() < 0.1:
             vel[0] = float("nan")
-        est = []
-        for pn, v in zip(("STAX", "STAY", "STAZ", "VELX", "VELY", "VELZ"), xyz + vel):
-            est.append(dict(soln="1", param_name=pn, estimate=v, estimate_std=0.001, ref_epoch=datetime(2010, 1, 1), unit="m"))
+        listed = list(sols)
+        rng.shuffle(listed)
+        ctx.count(f"site:solutions:{n_sol}:{'chronological' if listed == sols else 'shuffled'}")
+        est, sol_epochs = [], []
+        for soln, a_, b_, xyz_j, vel_j in listed:
+            sol_epochs.append(dict(soln=soln, start_epoch=a_, end_epoch=b_, mean_epoch=None))
+            for pn, v in zip(("STAX", "STAY", "STAZ", "VELX", "VELY", "VELZ"), xyz_j + vel_j):
+                est.append(dict(soln=soln, param_name=pn, estimate=v, estimate_std=0.001, ref_epoch=datetime(2010, 1, 1), unit="m"))
         sd[st] = {
             "site_id": dict(site_code=st, point_code="A", domes=dom, marker=mark, obs_code="P", description=description,
                             approx_lon=0.0, approx_lat=0.0, approx_height=0.0),
             "site_antenna": ants, "site_receiver": rcvs, "site_eccentricity": eccs,
-            "solution_epochs": [dict(soln="1", start_epoch=start, end_epoch=None, mean_epoch=None)],
+            "solution_epochs": sol_epochs,
             "solution_estimate": est,
         }
         truth[st] = dict(domes=dom + mark, name=desc, ants=ants, rcvs=rcvs, eccs=eccs, xyz=xyz, vel=vel, start=start,
@@ -439,6 +457,15 @@ def build_site_info(sd, names, source_path, truth=None):
         if truth is not None and truth[st].get("ident"):
             si[st]["identifier"] = SimpleNamespace(**truth[st]["ident"])
     return si
+
+
+def defaults_digest(wname):
+    """default values of the writer's parameters (a mutable default is shared by all calls of the process)"""
+    import importlib
+    import inspect
+    fn = getattr(importlib.import_module(f"midgard.writers.{wname}"), wname)
+    return digest({n_: (p_.default if p_.default is not inspect.Parameter.empty else "<required>")
+                   for n_, p_ in inspect.signature(fn).parameters.items()})
 
 
 def ident_digest(si):
@@ -506,18 +533,19 @@ def sta_events(t, skip_firmware):
     return sorted(dates)
 
 
-def rows_sta(names, truth, source_name, actual_tail):
+def rows_sta(names, truth, source_name, actual_tail, rename=None, skip_firmware=False):
     """rows of the three sections; `actual_tail(kind, i)` supplies free-text remarks of section 003 (not modelled)"""
     s1, s2, s3 = [], [], []
     for st in sorted(names):
         t = truth[st]
         dfrom = t["ants"][0]["start_time"]
         dto = t["ants"][-1]["end_time"] or DMAX
-        s1.append(("sta1", [v_s(st.upper()), v_s(t["domes"]), v_s(fmt_dt(dfrom)), v_s(fmt_dt(dto)), v_s(st.upper()),
+        s1.append(("sta1", [v_s(st.upper()), v_s(t["domes"]), v_s(fmt_dt(dfrom)), v_s(fmt_dt(dto)),
+                            v_s((rename[st] if rename and st in rename else st).upper()),
                             v_s(t["remark1"] or f"From {source_name} file")], dict(station=st)))
     for st in sorted(names):
         t = truth[st]
-        ev = sta_events(t, False)
+        ev = sta_events(t, skip_firmware)
         for a, b in zip(ev, ev[1:]):
             r, an, ec = at(t["rcvs"], a), at(t["ants"], a), at(t["eccs"], a)
             if not (r and an and ec):
@@ -585,12 +613,27 @@ def run_site_writers(ctx, t, acc, n_sets):
             rep0 = dict(writer=wname, stations=len(names), edge=edge, options={a: str(b) for a, b in opts.items()},
                         how=f"midgard.writers.write({wname!r}, file_path=..., site_info=SiteInfo.get_history('snx', <source>, stations) + identifier, ...)")
             kw = dict(file_path=out, site_info=si)
+            skip_fw = False
+            rename = None
+            if wname == "bernese_sta":
+                skip_fw = rng.random() < 0.4
+                if rng.random() < 0.6:       # alternative names for SOME stations only (the usual case)
+                    rename = {st_: gen_name(rng, 4) for st_ in names if rng.random() < 0.4}
+                    if len(rename) == len(names):
+                        rename.pop(sorted(rename)[0])
+                    kw.update(rename_station=rename)
+                if skip_fw or rng.random() < 0.3:
+                    kw.update(skip_firmware=skip_fw)
+                opts = dict(opts, skip_firmware=skip_fw, rename_station=rename)
+                rep0["options"] = {a: str(b) for a, b in opts.items()}
             if wname == "bernese_crd":
                 kw.update(datum=opts["datum"], epoch=opts["epoch"], agency=opts["agency"], write_nan_site_coord=opts["write_nan"])
             elif wname == "bernese_vel":
                 kw.update(datum=opts["datum"], agency=opts["agency"], write_nan_site_vel=opts["write_nan"])
             else:
                 kw.update(agency=opts["agency"])
+            args_before = digest({a: b for a, b in kw.items() if a not in ("site_info", "file_path")})
+            defaults_before = defaults_digest(wname)
             try:
                 writers.write(wname, **kw)
             except Exception as e:
@@ -598,7 +641,27 @@ def run_site_writers(ctx, t, acc, n_sets):
                 continue
             if digest(sdc) + ident_digest(si) != before:
                 acc.direct.append((f"writer {wname} changed the site-information source data", dict(rep0, source=_src_repr(sd))))
+            args_after = digest({a: b for a, b in kw.items() if a not in ("site_info", "file_path")})
+            if args_after != args_before:
+                acc.direct.append((f"writer {wname} changed an option it was given: {args_before} -> {args_after}", dict(rep0, source=_src_repr(sd))))
+            if defaults_digest(wname) != defaults_before:
+                acc.direct.append((f"writer {wname} changed the default value of one of its parameters (shared between calls): "
+                                   f"{defaults_before} -> {defaults_digest(wname)}", dict(rep0, source=_src_repr(sd))))
             lines = read_lines(out)
+            # the same call once more (fresh, equal inputs): the output may differ in the time stamp line only
+            try:
+                sdc2 = copy.deepcopy(sd)
+                kw2 = dict(kw, file_path=Path(str(out) + "_again"), site_info=build_site_info(sdc2, names, src_path, truth))
+                if rename is not None:
+                    kw2["rename_station"] = dict(rename)
+                writers.write(wname, **kw2)
+                again = read_lines(kw2["file_path"])
+                if again[1:] != lines[1:]:
+                    bad = next((i_ for i_, (x_, y_) in enumerate(zip(lines, again)) if i_ and x_ != y_), min(len(lines), len(again)))
+                    acc.direct.append((f"writer {wname}: a second call with equal inputs writes a different file (line {bad + 1})",
+                                       dict(rep0, first=lines[bad:bad + 2], second=again[bad:bad + 2], source=_src_repr(sd))))
+            except Exception as e:
+                acc.direct.append((f"writer {wname} raised {type(e).__name__} on a second call with equal inputs: {e}", dict(rep0, source=_src_repr(sd))))
             frec = dict(kind=wname, rep=rep0, parser_error=None, row_refs=[], source=sd)
             acc.files.append(frec)
             getattr(_SiteFiles, wname)(ctx, t, acc, frec, lines, names, truth, opts, out, src_path)
@@ -725,7 +788,7 @@ class _SiteFiles:
     @staticmethod
     def bernese_sta(ctx, t, acc, frec, lines, names, truth, opts, out, src_path):
         from midgard import parsers
-        s1, s2, s3 = rows_sta(names, truth, src_path.name, None)
+        s1, s2, s3 = rows_sta(names, truth, src_path.name, None, opts.get("rename_station"), opts.get("skip_firmware", False))
 
         def section(title):
             try:
@@ -1310,7 +1373,8 @@ def run(ctx):
               "(1..400 unsorted epochs, 1..2 stations, optional sigma/correlation/ENU/GNSS columns, NaN; edge streams wide ENU / sigma / "
               "counts, 10-character station, 4-character agency) through sinex_tms; every written line compared with the model in Coq, "
               "re-read by bernese_crd / bernese_clu / bernese_sta_v52 / sinex_tms parsers; every station of multi-station datasets with common "
-              "epochs is written; site-log style identifiers (long names, country code, plate); csv_ on datasets with several rows per epoch, "
+              "epochs is written; site-log style identifiers (long names, country code, plate); 1..4 coordinate solutions listed in shuffled "
+              "order; rename_station / skip_firmware options; every argument and every parameter default digested, each site writer called twice; csv_ on datasets with several rows per epoch, "
               "re-read by the csv_ parser; input digests before/after. "
               "distinct_nontrivial = distinct coordinate / station-information / time-series rows"),
     )
